@@ -23,6 +23,7 @@ import (
 	"time"
 
 	"github.com/attestantio/go-block-relay/services/blockauctioneer"
+	builder "github.com/attestantio/go-builder-client"
 	builderapi "github.com/attestantio/go-builder-client/api"
 	apibellatrix "github.com/attestantio/go-builder-client/api/bellatrix"
 	apicapella "github.com/attestantio/go-builder-client/api/capella"
@@ -81,6 +82,10 @@ type RelayIn struct {
 	Grace     int64    `json:"grace,omitempty"` // ms
 	IgnoreCtx bool     `json:"ignore_ctx,omitempty"`
 	Script    []RespIn `json:"script"`
+	// the proposer's configuration spells this relay's address http://0x<public key AdvKey>@host: the
+	// advertised key is then the one that the REAL builder client, constructed and held by
+	// util.FetchBuilderClient, has parsed from the address (see fetched_test.go)
+	KeyInAddr bool `json:"key_in_address,omitempty"`
 }
 
 type BConfIn struct {
@@ -114,6 +119,10 @@ type Input struct {
 	// hour.  With a short pause two auctions fall into the same second of chain time, so that a relay
 	// can offer the very same bid message (same header timestamp) in both.
 	Settle int64 `json:"settle,omitempty"`
+	// what other sites of the process (submission of validator registrations, unblinding, the auction
+	// of another proposer whose configuration spells the relay differently) have asked
+	// util.FetchBuilderClient for before this auction, in this order; must not show in the auction
+	Fetched []FetchIn `json:"fetched_before,omitempty"`
 }
 
 // LateIn: the beacon node asks (again) for the bid of the auction's slot / parent / proposer after the
@@ -332,11 +341,22 @@ type relayMock struct {
 	mu        sync.Mutex
 	n         int
 	nLate     int
+	real      builder.Service // the client that util.FetchBuilderClient constructed (fetched_test.go); nil: none
 }
 
 func (m *relayMock) Name() string              { return fmt.Sprintf("relay-%d", m.idx) }
-func (m *relayMock) Address() string           { return m.addr }
-func (m *relayMock) Pubkey() *phase0.BLSPubKey { return m.adv }
+func (m *relayMock) Address() string {
+	if m.real != nil {
+		return m.real.Address()
+	}
+	return m.addr
+}
+func (m *relayMock) Pubkey() *phase0.BLSPubKey {
+	if m.real != nil {
+		return m.real.Pubkey()
+	}
+	return m.adv
+}
 func (m *relayMock) answer(ctx context.Context) (*builderapi.Response[*builderspec.VersionedSignedBuilderBid], error) {
 	if ph := phaseOf(ctx); ph != phaseAuction {
 		return m.answerLate(ctx, ph)
@@ -639,6 +659,10 @@ func runRound(t *testing.T, root context.Context, in Input, obs *Obs, lg *callLo
 	bidUID := map[*builderspec.VersionedSignedBuilderBid]uint64{}
 	addrIdx := map[string]uint64{}
 	relayConfigs := make([]*beaconblockproposer.RelayConfig, 0, len(in.Relays))
+	var mocks []*relayMock
+	if usesFetch(&in) {
+		unwrapFetched()
+	}
 	for i := range in.Relays {
 		r := &in.Relays[i]
 		m := &relayMock{idx: i, addr: relayAddress(i, r.Kind), adv: relayPubkey(r.AdvKey), ignoreCtx: r.IgnoreCtx, start: start, log: lg}
@@ -664,13 +688,21 @@ func runRound(t *testing.T, root context.Context, in Input, obs *Obs, lg *callLo
 				m.late = append(m.late, s)
 			}
 		}
+		if viaFetch(&in, i) {
+			m.addr = spelledAddress(i, keyInAddress(r))
+			mocks = append(mocks, m)
+			for _, a := range spellings(&in, i) {
+				addrIdx[a] = uint64(i)
+			}
+		}
 		addrIdx[m.addr] = uint64(i)
-		switch r.Kind {
-		case "full":
+		switch {
+		case viaFetch(&in, i):
+		case r.Kind == "full":
 			util.InjectBuilderClientC09(m.addr, fullClient{m})
-		case "nounblind":
+		case r.Kind == "nounblind":
 			util.InjectBuilderClientC09(m.addr, bidOnlyClient{m})
-		case "nobid":
+		case r.Kind == "nobid":
 			util.InjectBuilderClientC09(m.addr, plainClient{m})
 		}
 		minValue, err := decimal.NewFromString(r.Min)
@@ -683,6 +715,7 @@ func runRound(t *testing.T, root context.Context, in Input, obs *Obs, lg *callLo
 		})
 	}
 	ec.relays = relayConfigs
+	fetchAndWrap(t, root, &in, mocks)
 	for mr, n := range roundMsg {
 		if n > 1 {
 			obs.DupWithin += n
@@ -1752,6 +1785,12 @@ func TestC09(t *testing.T) {
 		}
 		jobs = append(jobs, job{rounds: []Input{gen(rng.Fork(), tier)}})
 		i++
+	}
+	// relay clients constructed and held by util.FetchBuilderClient, fetched before under other spellings
+	rngF := NewRand(Seed() ^ 0xC09F)
+	for i := 0; i < n/20; i++ {
+		rounds := genFetched(rngF.Fork(), tier)
+		jobs = append(jobs, job{rounds: rounds, from: len(rounds) - 1})
 	}
 	for _, jb := range jobs {
 		for j := range jb.rounds {
